@@ -1,14 +1,19 @@
 import Memterm.Proofs.InvStep
 import Memterm.Spec.C10
+import Memterm.Proofs.SparseStep
 
 /-
   C10 — display() is a faithful and side-effect-free rendering of the grid.
 
-  In the observation model `display` is a function of the state; that the
-  implementation's `display()` (which materialises default cells in its sparse buffer)
-  leaves every observable unchanged is checked on every display transition of the crate
-  (obs post = obs pre, rendering = `display env (obs pre)`), and by the model-free runs
-  with display() interposed at arbitrary points of a history.
+  In the observation model `display` is a function of the state.  The implementation's
+  `display()` materialises default cells in its sparse buffer; the sparse layer
+  (`Memterm/Sparse.lean`, `Sparse.display`) models exactly that, and the theorems at the end of
+  this file show that the materialisation is unobservable and that the returned strings are
+  the rendering of the observation - for every state and however often it is called.  The tie of
+  the sparse layer to the crate is measured on every transition (raw-buffer agreement, in the
+  evidence); on the implementation the property is decided on every display transition
+  (obs post = obs pre, rendering = `display env (obs pre)`) and by the model-free runs with
+  display() interposed at arbitrary points of a history.
 -/
 namespace Memterm
 namespace C10
@@ -69,6 +74,42 @@ theorem run_strip (env : Env) (s : Screen) (h : List Call) : run env s h = run e
 theorem display_positions_irrelevant (env : Env) (s : Screen) (h1 h2 : List Call) (e : strip h1 = strip h2) :
     run env s h1 = run env s h2 := by
   rw [run_strip env s h1, run_strip env s h2, e]
+
+/-! #### the sparse layer: materialisation is unobservable -/
+
+/-- `display()` on the sparse state (absent rows and cells are inserted as it reads them) returns the
+    rendering of the observation ... -/
+theorem sparse_display_renders (env : Env) (ss : Sparse.SScreen) :
+    (Sparse.display env ss).2 = display env (Sparse.abs ss) := Sparse.display_eq env ss
+
+/-- ... and changes no observation: never-written cells still read as blanks, everything else is untouched -/
+theorem sparse_display_pure (env : Env) (ss : Sparse.SScreen) :
+    Sparse.abs (Sparse.display env ss).1 = Sparse.abs ss := Sparse.abs_display env ss
+
+/-- two runs of the same history on the sparse state that differ only in where display() was called
+    (so: in which cells were materialised when) end in the same observable state -/
+theorem sparse_display_positions_irrelevant (env : Env) (columns lines : Nat) (hc : 1 ≤ columns) (hl : 1 ≤ lines)
+    (hdc : columns < dimBound) (hdl : lines < dimBound)
+    (h1 h2 : List Call) (e : strip h1 = strip h2)
+    (a1 : ∀ c ∈ h1, c.argOk = true) (a2 : ∀ c ∈ h2, c.argOk = true) :
+    Sparse.abs (h1.foldl (Sparse.step env) (Sparse.init columns lines)) =
+      Sparse.abs (h2.foldl (Sparse.step env) (Sparse.init columns lines)) := by
+  have hi : Inv (Sparse.abs (Sparse.init columns lines)) := by
+    rw [Sparse.abs_init]; exact inv_init columns lines hc hl hdc hdl
+  rw [Sparse.abs_run env h1 _ hi a1, Sparse.abs_run env h2 _ hi a2]
+  exact display_positions_irrelevant env _ h1 h2 e
+
+/-- non-vacuity of the sparse statements: after drawing one character into a 3x2 screen the buffer holds
+    one row with one cell; display() materialises all six cells; the rendering and every observation
+    are unchanged -/
+example :
+    let env : Env := { W := fun _ => 1, CM := fun _ => false, NFC := id }
+    let ss := Sparse.draw env (Sparse.init 3 2) [97]
+    let dd := Sparse.display env ss
+    ss.buf.length = 1 ∧ (ss.buf.map (fun r => r.2.length)) = [1] ∧
+    dd.1.buf.length = 2 ∧ (dd.1.buf.map (fun r => r.2.length)) = [3, 3] ∧
+    dd.2 = [[97, 32, 32], [32, 32, 32]] ∧ display env (Sparse.abs dd.1) = dd.2 := by
+  decide
 
 /-- a never-written (blank) row renders as `columns` spaces -/
 theorem blank_row (env : Env) (s : Screen) (y : Nat) (hw : env.W 32 ≠ 2)
